@@ -21,7 +21,7 @@ RULE = ("random buffers (length 0..300, geometric), random start value, random p
 
 
 def budget(tier):
-    return 3000 if tier == "quick" else 60000
+    return 3000 if tier == "quick" else 400000
 
 
 def _mk(c, bs, ks, tags):
